@@ -440,18 +440,23 @@ class Upstream:
         self.mode = 'ok'
         self.color = (0, 200, 0)
         self.calls = 0
+        self.two = False      # cache with two sources (base + overlay): 'fail' makes only the overlay fail
 
     def open(self, client, url, data=None, method=None):
         from mapproxy.client.http import HTTPClientError
         from urllib.parse import urlparse, parse_qs
         from PIL import Image
         self.calls += 1
-        if self.mode == 'fail':
+        overlay = '/overlay' in url
+        if self.mode == 'fail' and (overlay or not self.two):
             raise HTTPClientError('upstream says 500', response_code=500)
         if self.mode == 'err':
             raise HTTPClientError('upstream says 404', response_code=404)
         q = {k.lower(): v[0] for k, v in parse_qs(urlparse(url).query).items()}
-        img = Image.new('RGB', (int(q['width']), int(q['height'])), self.color)
+        if overlay:
+            img = Image.new('RGBA', (int(q['width']), int(q['height'])), (0, 0, 0, 0))
+        else:
+            img = Image.new('RGB', (int(q['width']), int(q['height'])), self.color)
         b = io.BytesIO()
         img.save(b, 'PNG')
         b.seek(0)
@@ -467,7 +472,7 @@ SVC_MODEL = {'tms': 'TMS', 'wmts': 'WMTS', 'wmtskvp': 'WMTS', 'kml': 'KML', 'wms
 
 
 class App:
-    def __init__(self, ctx, cache_type, meta, hours, link=None):
+    def __init__(self, ctx, cache_type, meta, hours, link=None, refresh=False, two=False):
         import yaml
         from mapproxy.wsgiapp import make_wsgi_app
         from webtest import TestApp
@@ -485,6 +490,17 @@ class App:
                                    'on_error': {500: {'response': '#ff0000', 'cache': False}}}}}
         if link:
             conf['caches']['c1']['link_single_color_images'] = True if link == 'symlink' else link
+        self.ref = None
+        if refresh:
+            self.ref = base + '/refresh_reference'
+            open(self.ref, 'w').close()
+            os.utime(self.ref, (1, 1))
+            conf['caches']['c1']['refresh_before'] = {'mtime': self.ref}
+        self.two = two
+        if two:
+            conf['sources']['ov'] = {'type': 'wms', 'req': {'url': 'http://up.invalid/overlay', 'layers': 'o', 'transparent': True},
+                                     'on_error': {500: {'response': 'transparent', 'cache': False}}}
+            conf['caches']['c1']['sources'] = ['up', 'ov']
         with open(base + '/m.yaml', 'w') as f:
             yaml.safe_dump(conf, f)
         self.wsgi = make_wsgi_app(base + '/m.yaml')
@@ -507,7 +523,15 @@ class App:
                     '&tilematrix=%d&tilerow=%d&tilecol=%d&format=image/png' % (z, NK - 1 - y, x))
         bb = self.grid.tile_bbox((x, y, z))
         return ('/service?service=WMS&request=GetMap&version=1.1.1&layers=lyr&styles=&srs=EPSG:900913&format=image/png'
-                '&width=256&height=256&tiled=true&bbox=%r,%r,%r,%r' % bb)
+                '&width=256&height=256&tiled=true&bbox=%r,%r,%r,%r' % bb
+                + ('&transparent=true' if self.two else ''))     # the two-source cache stores transparent tiles
+
+    def ref_mtime(self):
+        return None if self.ref is None else os.stat(self.ref).st_mtime
+
+    def is_stale(self, ent):
+        """TileManager.is_cached: stale = int(tile.timestamp) <= mtime of the refresh_before reference file"""
+        return self.ref is not None and ent is not None and int(ent[0]) <= self.ref_mtime()
 
     def color_file(self, color):
         return self.tm.cache._single_color_tile_location(tuple(color))
@@ -710,6 +734,8 @@ class History:
         calls0 = self.up.calls
         linked_existing = bool(self.app.link and mode == 'ok' and pre is None
                                and os.path.exists(self.app.color_file(self.up.color)))
+        stale = self.app.is_stale(pre)
+        refreshing = stale and mode in ('ok', 'fail')
         try:
             r = self.app.app.get(self.app.url(svc, key), headers=headers, expect_errors=True)
             status, hl, body = r.status_int, [(k, v) for k, v in r.headerlist], r.body
@@ -729,7 +755,7 @@ class History:
         step = {'event': 'request', 'service': svc, 'key': key, 'upstream': mode, 'if_none_match': inm, 'if_modified_since': ims,
                 'clock': repr(float(now)), 'stored_before': None if pre is None else [repr(pre[0]), pre[1]],
                 'status': status, 'etag': etag, 'last_modified': lastmod, 'cache_control': [v for k_, v in hl if k_.lower() == 'cache-control'],
-                'body_len': len(body), 'upstream_calls': asked,
+                'body_len': len(body), 'upstream_calls': asked, 'stale_by_refresh_rule': stale,
                 'stored_after': None if after[key] is None else [repr(after[key][0]), after[key][1]]}
         self.log.append(step)
         ctx.count('app:svc=' + svc)
@@ -743,7 +769,7 @@ class History:
         where = 'service=%s,' % ('wmts' if svc == 'wmtskvp' else svc)
         if status == 304 and body:
             self.fail(where + '304-with-body', '304 answer carries %d body bytes' % len(body), step)
-        if pre is not None:
+        if pre is not None and not refreshing:
             ts, size, data = pre
             cur_etag = md5hex(str(ts) + str(size))
             cur_lm = fmt_date(int(ts // 1))
@@ -787,7 +813,7 @@ class History:
                 if status == 304 and inm != cur_etag and ims is not None and self.by_cache.get(key):
                     held = [c for c in self.copies[key] if c[0] == ims and c[1] != data]
                     if held:
-                        self.fail('store-timestamp-backwards-304',
+                        self.fail('hardlink-store-timestamp-backwards-304' if self.app.link == 'hardlink' else 'store-timestamp-not-advanced-304',
                                   'the client holds an earlier version of this tile (Last-modified %r, other bytes); the cache backend '
                                   'itself has stored the tile again since, yet If-Modified-Since with that date is answered 304 '
                                   '(current mtime %r, link mode %r)' % (ims, ts, self.app.link), step)
@@ -806,34 +832,64 @@ class History:
                     bad.append('no no-store directives')
                 if public is not None or etag is not None or lastmod is not None:
                     bad.append('public/validator headers %r %r %r' % (public, etag, lastmod))
-                if after[key] is not None:
+                if after[key] != pre:
                     bad.append('the fill image was stored')
                 if status == 304:
                     self.fail(where + 'uncacheable-304', 'uncached error fill image answered 304', step)
                 elif bad:
                     self.fail(where + 'uncacheable-public-headers', 'uncached error fill image: ' + '; '.join(bad), step)
-            elif mode == 'ok':
+            elif mode == 'ok' and pre is None:
                 if status >= 400:
                     self.fail('ims-date-out-of-range-500' if ims_class == 'oor' else where + 'fresh-tile-error',
                               'fresh tile answered %d (If-Modified-Since %r)' % (status, ims), step)
                 if after[key] is not None and after[key] != pre:
                     self.by_cache[key] = True
-                if status == 304 and after[key] is not None and linked_existing:
-                    # tile linked to an existing single-colour file: tile_buffer did not run, the answer carries the
-                    # validators of (None, None): constant ETag md5("NoneNone"), no Last-modified
-                    self.fail('linked-fresh-tile-constant-etag-304',
-                              'a tile created by this request (linked to an existing single colour file) is answered 304 to '
-                              'If-None-Match %r = md5("NoneNone"), the constant ETag every such creating answer carries' % (inm,), step)
-                elif status == 304 and after[key] is not None:
-                    size = len(after[key][2])
-                    fresh_etag = md5hex(str(float(now)) + str(size))
-                    ok = inm == fresh_etag or (ims_class == 'date' and ims_t is not None and now <= ims_t)
-                    if not ok and ims_class != 'quirk':
-                        self.fail(where + 'unsound-304', '304 for a tile created by this request without matching validator', step)
+                if status in (200, 304) and after[key] is not None:
+                    # validators of the tile object of the creating request: (time.time(), encoded size); for a tile
+                    # stored as a link to a single colour file: lstat of the tile location (repair of C20-L1)
+                    fts, fsize = (after[key][0], after[key][1]) if self.app.link else (float(now), len(after[key][2]))
+                    fresh_etag = md5hex(str(fts) + str(fsize))
+                    if etag != fresh_etag or (lastmod is None and fts):
+                        sig = 'linked-fresh-tile-constant-etag-304' if linked_existing else where + 'fresh-validators'
+                        self.fail(sig, 'the answer that created the tile carries ETag %r / Last-modified %r; expected the validators of '
+                                  '(timestamp %r, size %r): %r' % (etag, lastmod, fts, fsize, fresh_etag), step)
+                    if status == 304:
+                        ok = inm == fresh_etag or (ims_class == 'date' and ims_t is not None and fts <= ims_t)
+                        if not ok and ims_class != 'quirk':
+                            self.fail(where + 'unsound-304', '304 for a tile created by this request without matching validator', step)
                 if status == 200 and after[key] is None:
                     ctx.problem('harness', 'tile requested with a working upstream was not stored (url mapping?)', step)
                 if status == 200 and after[key] is not None and after[key][2] != body and not linked_existing:
                     self.fail(where + 'fresh-body-differs', 'body of the creating answer differs from the stored tile', step)
+            elif mode == 'ok' and refreshing:
+                # the refresh rule calls the stored tile stale and the source answers: the tile is written again
+                self.by_cache[key] = True
+                if status >= 400:
+                    self.fail(where + 'refresh-error', 'refreshing request answered %d' % status, step)
+                elif after[key] is None or asked == 0:
+                    self.fail(where + 'refresh-not-stored', 'stale tile was not fetched / stored again', step)
+                else:
+                    changed = after[key][2] != pre[2]
+                    if changed and after[key][0] <= pre[0]:
+                        self.fail('rewrite-keeps-timestamp',
+                                  'the tile was replaced by other bytes but the stored timestamp did not advance: %r -> %r (clock %r)'
+                                  % (pre[0], after[key][0], float(now)), step)
+                    new_ts, new_size = after[key][0], after[key][1]
+                    # the stamp of the tile object of this request (as for a creating request)
+                    fts, fsize = (new_ts, new_size) if self.app.link else (float(now), len(after[key][2]))
+                    justified = inm == md5hex(str(fts) + str(fsize)) or (
+                        ims_class in ('date', 'quirk') and (ims_t is None or fts <= ims_t))
+                    if status == 304 and changed and not justified:
+                        self.fail('refresh-answer-old-timestamp-304',
+                                  'this request replaced the stored tile by other bytes and is itself answered 304 '
+                                  '(If-None-Match %r, If-Modified-Since %r): its answer carries the timestamp %r of the replaced tile'
+                                  % (inm, ims, pre[0]), step)
+                    if etag != md5hex(str(fts) + str(fsize)) or lastmod != fmt_date(int(fts // 1)):
+                        self.fail('refresh-answer-old-timestamp-304' if lastmod == fmt_date(int(pre[0] // 1)) else where + 'fresh-validators',
+                                  'the refreshing answer carries ETag %r / Last-modified %r; expected the validators of the new '
+                                  'content (timestamp %r, size %r); replaced tile: timestamp %r' % (etag, lastmod, fts, fsize, pre[0]), step)
+                    if status == 200 and body != after[key][2]:
+                        self.fail(where + 'fresh-body-differs', 'body of the refreshing answer differs from the stored tile', step)
         if status in (200, 304) and etag is not None:
             self.validators[key].append((etag, lastmod))
 
@@ -842,24 +898,26 @@ class History:
         extras = []
         for k in self.keys:
             if k != key and after[k] != before[k]:
-                if pre is None and mode == 'ok' and k in sib and after[k] is not None:
+                if (pre is None or refreshing) and mode == 'ok' and k in sib and after[k] is not None:
                     extras.append((k, after[k]))
                 # any other change stays unexplained -> the stores disagree -> correspondence problem
-        if pre is None and mode == 'ok' and after[key] is not None:
+        if (pre is None or refreshing) and mode == 'ok' and after[key] is not None:
             ts2, size2, data2 = after[key]
-            self.tab.add(str(float(now)) + str(len(data2)))
+            fts, fsize = (ts2, size2) if self.app.link else (float(now), len(data2))
+            self.tab.add(str(fts) + str(fsize))
             try:
-                buffered = 'None' if linked_existing else '(Some (%s, %s))' % (stamp_lit(float(now)), zlit(len(data2)))
-                up_l = '(UOk %s %s %s)' % (zlit(self.body_id(body if status == 200 else data2)), buffered, self.entry_lit(after[key]))
+                up_l = '(UOk %s %s %s %s)' % (zlit(self.body_id(body if status == 200 else data2)), stamp_lit(fts), zlit(fsize),
+                                              self.entry_lit(after[key]))
             except ValueError as e:
                 ctx.problem('harness', 'timestamp outside the tick grid: %s' % e, step)
                 return status
         elif mode == 'fail':
-            up_l = '(UFill %s)' % zlit(self.body_id(body) if status == 200 and pre is None else 1)
+            up_l = '(UFill %s)' % zlit(self.body_id(body) if status == 200 and (pre is None or refreshing) else 1)
         else:
-            up_l = 'UErr' if mode == 'err' or pre is None else '(UOk 1 None {| e_ts := %s; e_size := 1; e_body := 1 |})' % stamp_lit(float(now))
+            up_l = 'UErr' if mode == 'err' or pre is None else (
+                '(UOk 1 %s 1 {| e_ts := %s; e_size := 1; e_body := 1 |})' % (stamp_lit(float(now)), stamp_lit(float(now))))
         inm_l = 'None' if inm is None else '(Some %s)' % codes(self.tab.src(inm))
-        ev = 'Req %s %d %s %s %s' % (SVC_MODEL[svc], key, inm_l, ims_lit(ims), up_l)
+        ev = '%s %s %d %s %s %s' % ('Refresh' if stale else 'Req', SVC_MODEL[svc], key, inm_l, ims_lit(ims), up_l)
         if status in (200, 304) and not weird:
             ct = 'content-type' in hd
             b_id = None if (status == 304 and not body) else self.body_id(body)
@@ -916,7 +974,7 @@ def sized_png(color, size):
 def run_script(ctx, hist, up, script):
     """corpus replay: a fixed history.  ops: rewrite(key,color,size,mtime) / remove(key) /
     request(svc,key,mode,inm,ims); inm 'last' = the ETag of the previous answer for that key"""
-    now = T0
+    now = 1760000000
     for op in script:
         now += 1
         if op['op'] == 'rewrite':
@@ -927,6 +985,9 @@ def run_script(ctx, hist, up, script):
             hist.do_store(op['key'], tuple(op['color']))
         elif op['op'] == 'sleep':
             real_time.sleep(op['seconds'])
+        elif op['op'] == 'touch_reference':
+            os.utime(hist.app.ref, (op['mtime'], op['mtime']))
+            now += 5
         else:
             key = op['key']
             inm = op.get('inm')
@@ -947,16 +1008,18 @@ def run_script(ctx, hist, up, script):
             hist.do_request(op.get('svc', 'tms'), key, op.get('mode', 'ok'), inm, ims, cls, t, now)
 
 
-def run_history(ctx, cache_type, meta, hours, nsteps, up, clock, script=None, link=None, tz=None):
+def run_history(ctx, cache_type, meta, hours, nsteps, up, clock, script=None, link=None, tz=None, refresh=False, two=False):
     rng = ctx.rng
-    label = '%s,meta=%d,max_age=%dh%s%s' % (cache_type, meta, hours, ',link=' + link if link else '', ',TZ=' + tz if tz else '')
-    app = App(ctx, cache_type, meta, hours, link)
+    label = '%s,meta=%d,max_age=%dh%s%s%s%s' % (cache_type, meta, hours, ',link=' + link if link else '', ',TZ=' + tz if tz else '',
+                                              ',refresh_before' if refresh else '', ',two sources' if two else '')
+    app = App(ctx, cache_type, meta, hours, link, refresh, two)
+    up.two = two
     hist = History(ctx, app, up, clock, label)
     if script is not None:
         run_script(ctx, hist, up, script)
         return hist
     hot = [0, 1, 6, 15, 5]      # 0,1 (and 5) share a 2x2 meta tile; 6 and 15 are in two other meta tiles
-    now = T0 + rng.randrange(0, 1000)
+    now = 1760000000 + rng.randrange(0, 1000)     # the cache's clock: later than every mtime the harness gives to rewrites
     colors = [(0, 200, 0), (10, 20, 250), (250, 250, 0), (5, 5, 5), (200, 0, 200)]
     mtime_base = 1750000000 + rng.randrange(0, 10 ** 6)
     last_key = None
@@ -967,6 +1030,16 @@ def run_history(ctx, cache_type, meta, hours, nsteps, up, clock, script=None, li
         if last_key is not None and rng.random() < 0.5:
             key = last_key
         pre = hist.store[key]
+        if refresh and rng.random() < 0.12:
+            # the operator touches the refresh_before reference file: everything stored up to that time is stale
+            stored = [hist.store[k][0] for k in hot if hist.store[k] is not None]
+            r = int(max(stored)) if stored and rng.random() < 0.7 else (int(min(stored)) if stored else 5)
+            os.utime(app.ref, (r, r))
+            now += 2
+            hist.log.append({'event': 'touch refresh_before reference', 'mtime': r})
+            ctx.count('app:event=expire')
+        if refresh:
+            now += 1
         if cache_type == 'file' and (link or rng.random() < 0.15) and c < 0.12:
             # the backend itself writes the tile again, in one of a few colours (shared single-colour files get reused)
             hist.do_store(key, rng.choice(colors[:3]))
@@ -1028,7 +1101,7 @@ def run_history(ctx, cache_type, meta, hours, nsteps, up, clock, script=None, li
             # the twin request without the header: a malformed date must make no difference
             tw_before = hist.store[key]
             a = hist.log[-1]
-            if tw_before is not None and pre is not None:
+            if tw_before is not None and pre is not None and tw_before == pre:
                 hist.do_request(svc, key, mode, inm, None, 'absent', None, now)
                 b = hist.log[-1]
                 if (a['status'], a['etag'], a['last_modified'], a['body_len']) != (b['status'], b['etag'], b['last_modified'], b['body_len']):
@@ -1128,7 +1201,7 @@ def run_app_stream(ctx):
                 continue
             c = json.load(open(os.path.join(cdir, fn)))
             hist = run_history(ctx, c['cache'], c.get('meta', 1), c.get('hours', 72), 0, up, clock, script=c['script'],
-                               link=c.get('link'))
+                               link=c.get('link'), refresh=c.get('refresh', False), two=c.get('two', False))
             hist.label = 'corpus/' + fn
             ctx.count('app:corpus')
             ctx.corr_check('corpus_' + fn[:-5].replace('-', '_'), 'Cond',
@@ -1145,6 +1218,14 @@ def run_app_stream(ctx):
             ctx.corr_check('app_file_%s' % link, 'Cond',
                            'store * event * list (Z * entry) * option outcome * store', hist.terms,
                            CHECKER % (72 * 3600), lambda i, h=hist: h.descr[i], shard=60)
+        # refresh rule on the single tile path (sqlite and file), and a cache with two sources one of which fails
+        for cache_type, refresh, two in (('sqlite', True, False), ('file', True, False), ('file', False, True), ('sqlite', False, True)):
+            hist = run_history(ctx, cache_type, 2 if two and cache_type == 'sqlite' else 1, 72, ctx.n(60, 400), up, clock,
+                               refresh=refresh, two=two)
+            ctx.corr_check('app_%s_%s' % (cache_type, 'refresh' if refresh else 'two_sources'), 'Cond',
+                           'store * event * list (Z * entry) * option outcome * store', hist.terms,
+                           CHECKER % (72 * 3600), lambda i, h=hist: h.descr[i], shard=60)
+        up.two = False
         # the same code in other time zones (HTTP dates are GMT whatever the zone of the process)
         for tz in ('America/New_York', 'Asia/Kolkata'):
             with TimeZone(tz):
